@@ -100,6 +100,12 @@ Definition F (o : okind) (id : N) (astnil : bool) (t : tyclass) (deflit arr pure
   {| f_obj := o; f_objid := id; f_astobj_nil := astnil; f_ty := t; f_deflit := deflit; f_arr := arr; f_pure := pure;
      f_cst := cst; f_sig := sg; f_istype := istype; f_multi := multi; f_basic := None |}.
 
+(* the same with the underlying basic type: (types.BasicInfo flags, types.BasicKind, 1 + Sizeof or 0 when unknown) *)
+Definition FB (o : okind) (id : N) (astnil : bool) (t : tyclass) (deflit arr pure : bool) (cst : option string)
+  (sg : sigfact) (istype : bool) (multi : N) (binfo bkind bsize1 : N) : facts :=
+  {| f_obj := o; f_objid := id; f_astobj_nil := astnil; f_ty := t; f_deflit := deflit; f_arr := arr; f_pure := pure;
+     f_cst := cst; f_sig := sg; f_istype := istype; f_multi := multi; f_basic := Some (binfo, bkind, bsize1) |}.
+
 Inductive node := Nd (t : tag) (pos : N) (s : string) (a b : N) (f : facts) (kids : nodes)
 with nodes := NN | NC (n : node) (r : nodes).
 
